@@ -49,9 +49,18 @@ def dec_cell(x):
 
 
 # ------------------------------------------------------------------ pandas build
-def _pd_custom_check(pa, c, faults):
+def _meta(c, where):
+    """what the monitor needs to know about the check a fault fired in"""
+    return {"where": where,
+            "raise_warning": bool((c.get("opts") or {}).get("raise_warning"))}
+
+
+def _pd_custom_check(pa, c, faults, where="column"):
     shape, pred, opts = c["shape"], c["pred"], dict(c.get("opts") or {})
-    w = faults.wrap
+    meta = _meta(c, where)
+
+    def w(kind, fn):
+        return faults.wrap(kind, fn, meta=meta)
     if shape == "vec":
         return pa.Check(w("check_vec", CF.PD_VEC[pred]), **opts)
     if shape == "elem":
@@ -71,11 +80,11 @@ def _pd_custom_check(pa, c, faults):
     raise KeyError(shape)
 
 
-def _pd_checks(pa, fs_dtype, checks, faults):
+def _pd_checks(pa, fs_dtype, checks, faults, where="column"):
     out = []
     for c in checks or []:
         if c["kind"] == "custom":
-            out.append(_pd_custom_check(pa, c, faults))
+            out.append(_pd_custom_check(pa, c, faults, where))
         else:
             out.append(B.build_check(pa, fs_dtype if fs_dtype in B.PD_DTYPE
                                      else "int64", c))
@@ -105,8 +114,9 @@ def _pd_dtype(d):
     return B.pd_dtype(d)
 
 
-def _pd_field_kwargs(pa, fs, faults):
-    kw = dict(checks=_pd_checks(pa, fs["dtype"], fs.get("checks"), faults),
+def _pd_field_kwargs(pa, fs, faults, where="column"):
+    kw = dict(checks=_pd_checks(pa, fs["dtype"], fs.get("checks"), faults,
+                                where),
               nullable=fs.get("nullable", False), unique=fs.get("unique", False),
               coerce=fs.get("coerce", False),
               report_duplicates=fs.get("report_duplicates", "all"))
@@ -124,7 +134,10 @@ def pandas_schema(spec, faults):
     index = None
     if spec.get("index"):
         levels = [pa.Index(_pd_dtype(fs["dtype"]), name=fs["name"],
-                           **_pd_field_kwargs(pa, fs, faults))
+                           **_pd_field_kwargs(
+                               pa, fs, faults,
+                               "index" if len(spec["index"]) == 1
+                               else "multiindex-level"))
                   for fs in spec["index"]]
         mi = spec.get("multiindex") or {}
         index = levels[0] if len(levels) == 1 else pa.MultiIndex(
@@ -132,7 +145,7 @@ def pandas_schema(spec, faults):
                        if k in mi})
     if spec["kind"] == "series":
         fs = spec["field"]
-        kw = _pd_field_kwargs(pa, fs, faults)
+        kw = _pd_field_kwargs(pa, fs, faults, "series")
         kw.pop("drop_invalid_rows", None)
         return pa.SeriesSchema(_pd_dtype(fs["dtype"]), name=fs["name"], index=index,
                                drop_invalid_rows=spec.get("drop_invalid_rows", False)
@@ -142,7 +155,9 @@ def pandas_schema(spec, faults):
         key = dec_label(fs.get("key", fs["name"]))
         cols[key] = pa.Column(_pd_dtype(fs["dtype"]), required=fs.get("required", True),
                               regex=fs.get("regex", False),
-                              **_pd_field_kwargs(pa, fs, faults))
+                              **_pd_field_kwargs(
+                                  pa, fs, faults,
+                                  "regex-column" if fs.get("regex") else "column"))
     return pa.DataFrameSchema(
         cols, index=index, strict=spec.get("strict", False),
         ordered=spec.get("ordered", False), unique=spec.get("unique"),
@@ -152,7 +167,7 @@ def pandas_schema(spec, faults):
         coerce=spec.get("coerce", False),
         drop_invalid_rows=spec.get("drop_invalid_rows", False),
         dtype=_pd_dtype(spec.get("dtype")),
-        checks=_pd_checks(pa, "int64", spec.get("checks"), faults),
+        checks=_pd_checks(pa, "int64", spec.get("checks"), faults, "frame"),
         parsers=_pd_parsers(pa, spec.get("parsers"), faults, frame=True) or None,
     )
 
@@ -190,9 +205,10 @@ def pandas_table(spec, table):
 
 
 # ------------------------------------------------------------------ polars build
-def _pl_checks(pa, dtype, checks, faults, frame=False):
+def _pl_checks(pa, dtype, checks, faults, frame=False, where="column"):
     vec, elem, fr = CF.pl_preds()
     out = []
+    wrap_ = faults.wrap
     for c in checks or []:
         if c["kind"] != "custom":
             out.append(getattr(pa.Check, c["kind"])(
@@ -200,16 +216,17 @@ def _pl_checks(pa, dtype, checks, faults, frame=False):
             continue
         shape, pred = c["shape"], c["pred"]
         opts = dict(c.get("opts") or {})
+        meta = _meta(c, "frame" if frame else where)
         if shape == "frame":
-            out.append(pa.Check(faults.wrap("check_frame",
-                                            fr.get(pred, fr["true"])), **opts))
+            out.append(pa.Check(wrap_("check_frame", fr.get(pred, fr["true"]),
+                                      meta=meta), **opts))
         elif shape == "elem":
-            out.append(pa.Check(faults.wrap("check_elem",
-                                            elem.get(pred, elem["true"])),
+            out.append(pa.Check(wrap_("check_elem", elem.get(pred, elem["true"]),
+                                      meta=meta),
                                 element_wise=True, **opts))
         else:
-            out.append(pa.Check(faults.wrap("check_vec",
-                                            vec.get(pred, vec["true"])), **opts))
+            out.append(pa.Check(wrap_("check_vec", vec.get(pred, vec["true"]),
+                                      meta=meta), **opts))
     return out
 
 
@@ -223,7 +240,9 @@ def polars_schema(spec, faults):
     import pandera.polars as pa
     cols = {}
     for fs in spec["columns"]:
-        kw = dict(checks=_pl_checks(pa, fs["dtype"], fs.get("checks"), faults),
+        kw = dict(checks=_pl_checks(pa, fs["dtype"], fs.get("checks"), faults,
+                                    where="regex-column" if fs.get("regex")
+                                    else "column"),
                   nullable=fs.get("nullable", False),
                   unique=fs.get("unique", False), coerce=fs.get("coerce", False),
                   required=fs.get("required", True))
@@ -529,6 +548,14 @@ def _custom(rng, shape, polars=False):
         c["opts"]["name"] = "named_check"
     if rng.random() < 0.1:
         c["opts"]["error"] = "custom error text"
+    if rng.random() < 0.1:
+        # a failing check only warns (SchemaWarning) instead of raising
+        c["opts"]["raise_warning"] = True
+    if shape.startswith("groupby") and rng.random() < 0.3:
+        # only these groups are handed to the check; "z" is never a group of
+        # the data (documented KeyError inside the check -> a failed check)
+        c["opts"]["groups"] = rng.choice([["x"], ["x", "y"], ["y"], ["z"],
+                                          "x"])
     return c
 
 
